@@ -1,12 +1,12 @@
 SPECIFICATION SpecMC
 CONSTANTS
   MaxEnt = 2
-  MinDat = 1
+  MinDat = 0
   MaxDat = 2
   DirSizes = {1}
   BufSizes = {2, 3}
   MCVariants = {"intended", "asbuilt", "cleaned", "uncollected"}
-  MCTargets = {"newdir", "existing", "device", "rodir", "rofile", "parentfile", "isdir", "linkdotdot"}
+  MCTargets = {"newdir", "existing", "device", "rodir", "rofile", "parentfile", "isdir", "relative", "dotdot", "unclean", "vialink", "linkdotdot", "linktofile", "danglinglink"}
   GroupNames = {}
 INVARIANTS Inv_C05 Inv_C05_Cleaned Inv_CleanedElsewhere Inv_PathForms Inv_Uncollected Inv_UncollectedLoses Inv_FaultReported Inv_NoSpurious Inv_Oracle Inv_Conservation Inv_Limit Inv_EarlySurfaces Inv_Run Inv_AsBuiltNil
 PROPERTIES Act_ErrSticky Act_WerrSticky Act_FileGrows Live_Returns
